@@ -79,7 +79,7 @@ impl DiffHook for HookD {
     }
 }
 
-pub const STACKS: [&str; 12] = [
+pub const STACKS: [&str; 13] = [
     "H",
     "Replace<H>",
     "Compact<H>",
@@ -92,6 +92,7 @@ pub const STACKS: [&str; 12] = [
     "Compact<NoFinishHook<H>>",
     "NoFinishHook<&mut H>",
     "Replace<NoFinishHook<&mut H>>",
+    "Replace<Compact<H>>",
 ];
 
 fn has_no_finish(stack: usize) -> bool {
@@ -114,6 +115,8 @@ fn reference_stack(stack: usize) -> usize {
 /// `replace` calls when `with_replace_calls`).
 enum Driver<'a> {
     Alg(Algorithm),
+    /// other public entry points: 1 = diff_slices, 2 = diff_slices_deadline(None), 3 = <alg>::diff, 4 = <alg>::diff_deadline(None)
+    AlgEntry(Algorithm, u8),
     /// algorithm with a deadline that the virtual clock lets expire at its k-th check
     AlgDeadline(Algorithm, u64),
     Script(&'a [Ev]),
@@ -122,6 +125,16 @@ enum Driver<'a> {
 fn drive<D: DiffHook<Error = usize>>(d: &mut D, drv: &Driver, a: &[u8], b: &[u8]) -> Result<(), usize> {
     match drv {
         Driver::Alg(alg) => diff(*alg, d, a, 0..a.len(), b, 0..b.len()),
+        Driver::AlgEntry(alg, e) => match (*e, *alg) {
+            (1, _) => similar::algorithms::diff_slices(*alg, d, a, b),
+            (2, _) => similar::algorithms::diff_slices_deadline(*alg, d, a, b, None),
+            (3, Algorithm::Myers) => similar::algorithms::myers::diff(d, a, 0..a.len(), b, 0..b.len()),
+            (3, Algorithm::Patience) => similar::algorithms::patience::diff(d, a, 0..a.len(), b, 0..b.len()),
+            (3, Algorithm::Lcs) => similar::algorithms::lcs::diff(d, a, 0..a.len(), b, 0..b.len()),
+            (_, Algorithm::Myers) => similar::algorithms::myers::diff_deadline(d, a, 0..a.len(), b, 0..b.len(), None),
+            (_, Algorithm::Patience) => similar::algorithms::patience::diff_deadline(d, a, 0..a.len(), b, 0..b.len(), None),
+            (_, Algorithm::Lcs) => similar::algorithms::lcs::diff_deadline(d, a, 0..a.len(), b, 0..b.len(), None),
+        },
         Driver::AlgDeadline(alg, _) => similar::algorithms::diff_deadline(*alg, d, a, 0..a.len(), b, 0..b.len(), Some(far_deadline())),
         Driver::Script(evs) => {
             for e in evs.iter() {
@@ -155,7 +168,8 @@ fn run_stack<H: DiffHook<Error = usize> + Clone>(stack: usize, h: &H, drv: &Driv
         8 => drive(&mut Replace::new(NoFinishHook::new(h)), drv, a, b),
         9 => drive(&mut Compact::new(NoFinishHook::new(h), a, b), drv, a, b),
         10 => drive(&mut NoFinishHook::new(&mut h), drv, a, b),
-        _ => drive(&mut Replace::new(NoFinishHook::new(&mut h)), drv, a, b),
+        11 => drive(&mut Replace::new(NoFinishHook::new(&mut h)), drv, a, b),
+        _ => drive(&mut Replace::new(Compact::new(h, a, b)), drv, a, b),
     }
 }
 
@@ -240,7 +254,7 @@ fn check_case_opt(drv: &Driver, drv_name: &str, a: &[u8], b: &[u8], stacks: &[us
             }
             let fins = c.evs.iter().filter(|e| **e == Ev::Fin).count();
             let script_has_finish = match drv {
-                Driver::Alg(_) | Driver::AlgDeadline(..) => true,
+                Driver::Alg(_) | Driver::AlgDeadline(..) | Driver::AlgEntry(..) => true,
                 Driver::Script(evs) => evs.last() == Some(&Ev::Fin),
             };
             if has_no_finish(stack) {
@@ -318,7 +332,7 @@ pub fn families() -> Vec<Box<dyn Family>> {
     vec![
         family(
             "alg_exh",
-            "every ordered pair over {0,1,2} with length <= 4 (quick) / <= 5 (thorough) x 3 algorithms x 12 adapter stacks (owned and &mut; NoFinishHook inside Replace/Compact) x hook with/without replace override x EVERY k = index of the failing hook call; non-trivial = pair different and both non-empty",
+            "every ordered pair over {0,1,2} with length <= 4 (quick) / <= 5 (thorough) x 3 algorithms x 13 adapter stacks (owned and &mut; NoFinishHook inside Replace/Compact; Replace around Compact); entry points algorithms::diff, diff_slices, diff_slices_deadline, <alg>::diff, <alg>::diff_deadline x hook with/without replace override x EVERY k = index of the failing hook call; non-trivial = pair different and both non-empty",
             true,
             4,
             |cfg| {
@@ -334,6 +348,11 @@ pub fn families() -> Vec<Box<dyn Family>> {
                         out.nontrivial(&(alg_name(alg), a, b));
                     }
                     check_case(&Driver::Alg(alg), alg_name(alg), a, b, &s1, out);
+                    // the other public entry points (slice shortcuts, per-algorithm modules)
+                    for e in 1..=4u8 {
+                        let name = format!("{} via {}", alg_name(alg), ["", "diff_slices", "diff_slices_deadline(None)", "<alg>::diff", "<alg>::diff_deadline(None)"][e as usize]);
+                        check_case(&Driver::AlgEntry(alg, e), &name, a, b, &[0, 1, 3, 4], out);
+                    }
                 }
             },
         ),
